@@ -127,10 +127,10 @@ Fixpoint client_ok (i : Z) (m w : spec) (h : list (kop * kobs)) : bool :=
       && pairs_eqb (sort_pairs fm) (sort_pairs (ofired b))  (* client-level *)
       && spec_eqb m1 w1                                     (* the wheel holds the client's timers *)
       && match o with
-         | KDrain => true
+         | KDrain => true      (* the entries stay, their timers are gone: the history ends here *)
          | _ => same_keys (map fst m1) (okeys b)   (* one timer per entry, none besides *)
+                && client_ok i m1 w1 h'
          end
-      && client_ok i m1 w1 h'
     end
   end.
 
@@ -144,4 +144,20 @@ Fixpoint trace_ok (i : Z) (w : spec) (segs : list (list op * fired)) : bool :=
   | (t, f) :: segs' =>
     let '(w1, fw) := seg_run i w t in
     pairs_eqb (sort_pairs fw) (sort_pairs f) && trace_ok i w1 segs'
+  end.
+
+(* a client that relies on fresh timer keys (the cache cleaner draws a random key for every
+   clean task): during the segments in which it registers a task, its SetTimer must not
+   land on a key that is pending, because SetTimer on a live key REPLACES the stored
+   value (for the cleaner: the closure to retry) and re-arms the timer *)
+Fixpoint fresh_ok (i : Z) (w : spec) (segs : list (list op * fired)) (adds : list bool) : bool :=
+  match segs, adds with
+  | (t, f) :: segs', a :: adds' =>
+    (if a then forallb (fun o => match o with
+                                 | OSet k _ _ => match sp_lookup k w with None => true | Some _ => false end
+                                 | _ => true
+                                 end) t
+     else true)
+    && fresh_ok i (fst (seg_run i w t)) segs' adds'
+  | _, _ => true
   end.
